@@ -139,55 +139,71 @@ Definition write_file (trunc : bool) (fs : fsys) (p : path) (data : list N) : op
 
 (* ---------- archives ---------- *)
 
+(* securePath(dest, name) (fix: confine archive entries):
+     root := Clean(dest); target := Join(root, name)
+     target != root && !HasPrefix(target, root+"/")  ->  illegal file path *)
+Definition secure_target (dest name : str) : str := join2 (clean dest) name.
+Definition guard_fixed (dest name : str) : bool :=
+  str_eqb (secure_target dest name) (clean dest)
+  || has_prefix (secure_target dest name) (clean dest ++ [SLASH]).
+
+(* case TypeDir / IsDir: MkdirAll(target) *)
+Definition put_dir (fs : fsys) (target : path) : fsys * bool :=
+  match mkdir_all fs target with
+  | Some fs1 => (fs1, true)
+  | None => (fs, false)
+  end.
+
+(* regular file: [MkdirAll(Dir(target))]; open (truncating or not); copy; close *)
+Definition put_file (trunc mkparents : bool) (fs : fsys) (target : path) (data : list N) : fsys * bool :=
+  match (if mkparents then mkdir_all fs (parent target) else Some fs) with
+  | None => (fs, false)
+  | Some fs1 =>
+    match write_file trunc fs1 target data with
+    | Some fs2 => (fs2, true)
+    | None => (fs1, false)
+    end
+  end.
+
 Inductive tkind := TReg | TDir | TOther.          (* tar type flags: regular, directory, anything else *)
 Record tentry := TE { te_name : str; te_kind : tkind; te_data : list N }.
 
 (* extractTarGz(dest): loop over the headers; result = file system after the
-   call and whether the call returned nil *)
-Fixpoint extract_targz (dest : str) (es : list tentry) (fs : fsys) : fsys * bool :=
+   call and whether the call returned nil.
+   fixed = true : the code as it is now (securePath, O_TRUNC);
+   fixed = false: before the fixes (prefix test that rejects the root entry, no
+   O_TRUNC), kept for the refutation theorems. *)
+Fixpoint extract_targz (fixed : bool) (dest : str) (es : list tentry) (fs : fsys) : fsys * bool :=
   match es with
   | [] => (fs, true)
   | e :: es' =>
-    if negb (guard dest (te_name e)) then (fs, false)          (* illegal file path *)
+    if negb (if fixed then guard_fixed dest (te_name e) else guard dest (te_name e))
+    then (fs, false)                                            (* illegal file path *)
     else
-      let target := comps (join2 dest (te_name e)) in
+      let target := comps (if fixed then secure_target dest (te_name e) else join2 dest (te_name e)) in
       match te_kind e with
-      | TDir =>
-        match mkdir_all fs target with
-        | Some fs1 => extract_targz dest es' fs1
-        | None => (fs, false)
-        end
-      | TReg =>
-        match mkdir_all fs (parent target) with
-        | None => (fs, false)
-        | Some fs1 =>
-          match write_file false fs1 target (te_data e) with
-          | Some fs2 => extract_targz dest es' fs2
-          | None => (fs1, false)
-          end
-        end
-      | TOther => extract_targz dest es' fs
+      | TDir => let r := put_dir fs target in
+                if snd r then extract_targz fixed dest es' (fst r) else r
+      | TReg => let r := put_file fixed true fs target (te_data e) in
+                if snd r then extract_targz fixed dest es' (fst r) else r
+      | TOther => extract_targz fixed dest es' fs
       end
   end.
 
 Record zentry := ZE { ze_name : str; ze_isdir : bool; ze_data : list N }.
 
-(* extractZip(dest): no destination check, no creation of parent directories *)
-Fixpoint extract_zip (dest : str) (es : list zentry) (fs : fsys) : fsys * bool :=
+(* extractZip(dest).  fixed = true: securePath + MkdirAll of the parent (as it is
+   now); fixed = false: no destination check, no creation of parent directories. *)
+Fixpoint extract_zip (fixed : bool) (dest : str) (es : list zentry) (fs : fsys) : fsys * bool :=
   match es with
   | [] => (fs, true)
   | e :: es' =>
-    let target := comps (join2 dest (ze_name e)) in
-    if ze_isdir e then
-      match mkdir_all fs target with
-      | Some fs1 => extract_zip dest es' fs1
-      | None => (fs, false)
-      end
+    if fixed && negb (guard_fixed dest (ze_name e)) then (fs, false)
     else
-      match write_file true fs target (ze_data e) with
-      | Some fs1 => extract_zip dest es' fs1
-      | None => (fs, false)
-      end
+      let target := comps (if fixed then secure_target dest (ze_name e) else join2 dest (ze_name e)) in
+      let r := if ze_isdir e then put_dir fs target
+               else put_file true fixed fs target (ze_data e) in
+      if snd r then extract_zip fixed dest es' (fst r) else r
   end.
 
 (* ---------- comparison with the observed tree ---------- *)
@@ -245,6 +261,6 @@ Definition mkt (dest : str) (es : list tentry) (obs : fsys) (ok : bool) : (str *
 Definition mkz (dest : str) (es : list zentry) (obs : fsys) (ok : bool) : (str * list zentry) * (fsys * bool) :=
   ((dest, es), (obs, ok)).
 Definition run_targz (x : str * list tentry) : fsys * bool :=
-  extract_targz (fst x) (snd x) (dirs_to (comps (fst x))).
+  extract_targz true (fst x) (snd x) (dirs_to (comps (fst x))).
 Definition run_zip (x : str * list zentry) : fsys * bool :=
-  extract_zip (fst x) (snd x) (dirs_to (comps (fst x))).
+  extract_zip true (fst x) (snd x) (dirs_to (comps (fst x))).
